@@ -221,7 +221,8 @@ Proof.
       assert (n <> m) as Q by (intros ->; congruence).
       specialize (Hlive m P1 Q). psimpl. exact Hlive.
   - (* AddLabel *)
-    cbn [step]. unfold do_add_label. destruct (node_live s n) eqn:LV; [|exact L].
+    cbn [step]. unfold do_add_label. cbn [fst]. apply (LabInv_view (fst (do_add_label_pre s n l))); [reflexivity|].
+    unfold do_add_label_pre. destruct (node_live s n) eqn:LV; [|exact L].
     destruct (get_or_create (lab_names s) l) as [names lid] eqn:G.
     destruct (get_or_create_spec _ _ _ _ G) as (G1 & G2 & G3 & G4 & G5).
     assert (Z.of_nat (length (lab_names s)) <= Z.of_nat (length names)) as Hlen
@@ -260,7 +261,8 @@ Proof.
         -- apply Z.eqb_neq in Q. split; [intros [P|[_ P]]; [exact P|contradiction]|intros P; left; exact P].
       * apply nd_idx_insert; [lia|exact H4].
   - (* RemoveLabel *)
-    cbn [step]. unfold do_remove_label. destruct (node_live s n) eqn:LV; [|exact L].
+    cbn [step]. unfold do_remove_label. cbn [fst]. apply (LabInv_view (fst (do_remove_label_pre s n l))); [reflexivity|].
+    unfold do_remove_label_pre. destruct (node_live s n) eqn:LV; [|exact L].
     destruct (find_pos l (lab_names s) 0) as [lid|] eqn:F; [|exact L].
     destruct (zget (node_labels s) n) as [set|] eqn:E; [|exact L].
     destruct (mem lid set) eqn:M; [|exact L]. cbn [fst]. apply mem_In in M.
